@@ -291,19 +291,21 @@ Definition vf_lines (r : vfile) : res (list str) :=
               s_stars ] ++ bl ++ [lit "End:"]))
   end.
 
-Fixpoint trim_all (fixed : bool) (ex : str -> bool) (td : val) (m : amap info) : res (amap info) :=
+Fixpoint trim_all (fixed : bool) (pe : penv) (ex : str -> bool) (td : val) (m : amap info)
+  : res (amap info) :=
   match m with
   | [] => Ok []
   | (f, i) :: m' =>
-      bind (trim_info_gen fixed ex td i) (fun i' =>
-        bind (trim_all fixed ex td m') (fun r => Ok ((f, i') :: r)))
+      bind (trim_info_gen fixed pe ex td i) (fun i' =>
+        bind (trim_all fixed pe ex td m') (fun r => Ok ((f, i') :: r)))
   end.
 
 (* VersionFile.write(trimDir).  The python loop trims and prints block by block; a crash
    in a later block therefore leaves a truncated file, which this function reports as the
    error alone. *)
-Definition vf_write_gen (fixed : bool) (ex : str -> bool) (td : val) (r : vfile) : res (list str) :=
-  bind (trim_all fixed ex td (vf_info r)) (fun m =>
+Definition vf_write_gen (fixed : bool) (pe : penv) (ex : str -> bool) (td : val) (r : vfile)
+  : res (list str) :=
+  bind (trim_all fixed pe ex td (vf_info r)) (fun m =>
     vf_lines {| vf_name := vf_name r; vf_version := vf_version r; vf_info := m |}).
 
 Definition vf_write := vf_write_gen true.
@@ -405,10 +407,12 @@ Definition db_find (ex : str -> bool) (name version : val) (flavor : str) (stack
   bind (vf_read name version lines) (fun r => Ok (make_product ex r flavor stackdir dbpath)).
 
 (* Database.declare on records: the version file contents to be printed.
+   trimDir is the stack root as it is spelt in the database path (a symbolic link is not
+   resolved here: write does that).
    A table file that is still falsy after canonicalisation goes through tableFileName in
    the code; that corner is not modelled (Err Undefined). *)
-Definition declare_rec (fixed : bool) (ex : str -> bool) (who now : str) (p : product) (r : vfile)
-  : res vfile :=
+Definition declare_rec (fixed : bool) (pe : penv) (ex : str -> bool) (who now : str) (p : product)
+                       (r : vfile) : res vfile :=
   let prod := canon_gen fixed (clone ex p) in
   if negb (truthy (p_table prod)) then Err Undefined else
   let r1 := add_flavor who now (p_flavor prod) (p_dir prod) (p_table prod) (p_ups prod) r in
@@ -417,12 +421,12 @@ Definition declare_rec (fixed : bool) (ex : str -> bool) (who now : str) (p : pr
               | Some (c :: x) => if ex (c :: x) then Some (c :: x) else None
               | _ => None
               end in
-    bind (trim_all fixed ex td (vf_info r1)) (fun m =>
+    bind (trim_all fixed pe ex td (vf_info r1)) (fun m =>
       Ok {| vf_name := vf_name r1; vf_version := vf_version r1; vf_info := m |})
   else Err Crash.                              (* trimDir is unbound *)
 
 (* Database.declare: the new text of the version file, from its old text if it exists *)
-Definition db_declare_gen (fixed : bool) (ex : str -> bool) (who now : str) (p : product)
+Definition db_declare_gen (fixed : bool) (pe : penv) (ex : str -> bool) (who now : str) (p : product)
                           (old : option (list str)) : res (list str) :=
   if negb (nonempty (p_name p) && nonempty (p_version p) && nonempty (p_flavor p)) then Err Refused
   else if negb (truthy (p_table (canon_gen fixed (clone ex p)))) then Err Undefined
@@ -431,7 +435,7 @@ Definition db_declare_gen (fixed : bool) (ex : str -> bool) (who now : str) (p :
           | Some ls => vf_read (Some (p_name p)) (Some (p_version p)) ls
           | None => Ok {| vf_name := Some (p_name p); vf_version := Some (p_version p);
                           vf_info := [] |}
-          end) (fun r => bind (declare_rec fixed ex who now p r) vf_lines).
+          end) (fun r => bind (declare_rec fixed pe ex who now p r) vf_lines).
 
 Definition db_declare := db_declare_gen true.
 
